@@ -192,6 +192,9 @@ func (ex *Exec) registerIntrinsics() {
 		return ret1(st, tt.Ite(a[0].(*Term), a[1].(*Term), a[2].(*Term)))
 	}
 	I["verif:verifdebugf"] = func(ex *Exec, st *State, _ *ssa.CallCommon, a []Value) []Outcome { return ret1(st, nil) }
+	I["verif:veriftempname"] = func(ex *Exec, st *State, _ *ssa.CallCommon, a []Value) []Outcome {
+		return ret1(st, ex.constStr(st, "/ghost/"+ex.argStr(st, a[0])))
+	}
 	I["verif:verifsymbolic"] = func(ex *Exec, st *State, _ *ssa.CallCommon, a []Value) []Outcome {
 		return ret1(st, tt.True)
 	}
